@@ -59,6 +59,17 @@ type Directives struct {
 	GhostFields map[string]string // "pkgpath.Type.field" -> type text
 	Defines     map[string]*Define
 	Pending     map[string]bool // "pkgpath.Type.field": callbacks stored here are invoked exactly once later
+	Implements  []ImplDecl      // implements pkg.Iface by *Type
+}
+
+// ImplDecl declares that a type of the declaring package implements an interface whose methods
+// carry contracts: the implementation's contracts are checked to refine them.
+type ImplDecl struct {
+	PkgPath string // declaring package (of the implementing type)
+	Iface   string // as written: "Iface" or "pkg.Iface"
+	Type    string // type name (pointer receiver implied)
+	Where   string
+	File    *ast.File
 }
 
 // Define is a specification macro: define name(p T, ...) R = expr
@@ -187,6 +198,14 @@ func parseContractLines(lines []string, where []string, pkgPath string, file *as
 					return nil, fmt.Errorf("%s: bad devirtualize %q", where[i], trim)
 				}
 				dirs.Devirt[qualify(pkgPath, strings.TrimSpace(parts[0]))] = qualify(pkgPath, strings.TrimLeft(strings.TrimSpace(parts[1]), "*"))
+			case "implements":
+				cur = nil
+				// implements pkg.Iface by *Type
+				rest := strings.Fields(strings.TrimSpace(trim[len(head):]))
+				if len(rest) != 3 || rest[1] != "by" {
+					return nil, fmt.Errorf("%s: bad implements %q (want: implements pkg.Iface by *Type)", where[i], trim)
+				}
+				dirs.Implements = append(dirs.Implements, ImplDecl{PkgPath: pkgPath, Iface: rest[0], Type: strings.TrimLeft(rest[2], "*"), Where: where[i], File: file})
 			case "pending":
 				cur = nil
 				for _, f := range splitNames(strings.TrimSpace(trim[len(head):])) {
